@@ -20,9 +20,8 @@ Driver for property C07: `kitdrv C07` reads one op per line and answers with the
   hook f=<ty> t=<ty> empty=<0|1> pd=<0|1> pi=<0|1> cast=<0|1> q=<0|1>             → `ok` | `err` | `panic`  (metadata hook chain)
   normalize v=<Val>   Val ::= s | l[Val,…] | m{Val,…} | a{<0|1>:Val,…}                  → `ok` | `err`   (config.Normalize)
   dstail tk=<kind> str=<0|1> impl=<0|1> isptr=<0|1> pimpl=<0|1> dok=<0|1> pok=<0|1>     → `ok` | `err` | `panic` (decodeString behind `f.Kind() == String`)
-  uncap s=<hex> lo=<r:l,…>                      → `ok <hex>` | `panic <why>`   (config.uncapitalize; `lo` = unicode.ToLower as a table, identity elsewhere)
   prefixed kind=<ms|m|mi|other> prefix=<hex> keys=<K,…> lo=<r:l,…>   K ::= k<hex> | n (non-string key)
-                                                → `ok <k<hex>,…>` (sorted set of converted keys) | `err` | `panic <why>`   (config.PrefixedBy)
+                                                → `ok <k<hex>,…>` (sorted set of converted keys) | `err` | `panic <why>`   (config.PrefixedBy; `lo` = unicode.ToLower as a table, identity elsewhere)
      RV ::= zero | nil:<ptr|iface|map|slice|func|chan> | ptr(RV) | iface(RV) | leaf:<kind>
 -/
 namespace Driver.C07
@@ -202,10 +201,6 @@ def step (_ : Unit) (line : String) : Unit × String :=
     | "kwunwrap" =>
       match l.nat? "n", l.nat? "intact" with
       | some n, some i => showOutcome (fun (k : Nat) => toString k) (KW.unwrap n (i == 1))
-      | _, _ => "bad-request"
-    | "uncap" =>
-      match l.hex? "s", parseLower ((l.get? "lo").getD "") with
-      | some s, some lo => showOutcome toHex (Prefix.uncapitalize lo s)
       | _, _ => "bad-request"
     | "prefixed" =>
       match l.hex? "prefix", parseKeys ((l.get? "keys").getD ""), parseLower ((l.get? "lo").getD "") with
